@@ -318,6 +318,24 @@ def _order_exposed(n):
         return None             # the enclosing set expression is examined itself
     if isinstance(p, ast.Call) and n in p.args:
         d = dotted(p.func) or ""
+        if d == "sorted":
+            # sorted() is stable: a key under which different elements can compare equal keeps the set's own order among them
+            key = next((k.value for k in p.keywords if k.arg == "key"), None)
+            if key is None:
+                return None
+            if isinstance(key, ast.Lambda) and len(key.args.args) == 1:
+                a_ = key.args.args[0].arg
+                b_ = key.body
+                last = b_.elts[-1] if isinstance(b_, ast.Tuple) and b_.elts else b_
+                if isinstance(last, ast.Name) and last.id == a_:
+                    return None          # the element itself decides ties
+                if isinstance(last, ast.Call) and isinstance(last.func, ast.Name) and last.func.id in ("str", "repr") \
+                        and len(last.args) == 1 and isinstance(last.args[0], ast.Name) and last.args[0].id == a_:
+                    return None
+                return f"sorted(.., key={norm(key, 40)}) whose key can tie"
+            if isinstance(key, ast.Name) and key.id in ("str", "repr"):
+                return None
+            return None              # an opaque key function: not decided here
         if d in ("list", "tuple", "enumerate", "iter", "np.array", "np.asarray", "zip", "map", "dict.fromkeys", "next"):
             return f"{d}(..)"
         if d.endswith((".join", ".extend")) or d in ("np.random.choice", "np.random.permutation", "np.random.shuffle"):
@@ -386,6 +404,8 @@ _ANCHOR = "        leader_position = np.array(self._best_agent.position)\n"
 _IMP = "import numpy as np\n\nfrom ..helpers import parse_obj_doc  # type: ignore\n"
 _MO = "pyvolutionary/models.py"
 VARIANTS = [
+    V("label-sort-key-loses-tie-break", _MO, "        self.__unique_labels__ = sorted(set(y), key=lambda x: (isinstance(x, (int, float)), x))",
+      "        self.__unique_labels__ = sorted(set(y), key=lambda x: isinstance(x, (int, float)))", "C07.R5"),
     V("label-order-from-set", _MO, "        self.__unique_labels__ = sorted(set(y), key=lambda x: (isinstance(x, (int, float)), x))",
       "        self.__unique_labels__ = list(set(y))", "C07.R5"),
     V("twin-labels-sorted-plain", _MO, "        self.__unique_labels__ = sorted(set(y), key=lambda x: (isinstance(x, (int, float)), x))",
